@@ -18,6 +18,7 @@ var registry = map[string]core.Harness{
 	"C08": GCX{},
 	"C35": REM{},
 	"C45": REP{},
+	"C39": SEAL{},
 }
 
 func TestSim(t *testing.T) { core.WorkerMain(t, registry) }
